@@ -2,6 +2,7 @@
 from .facts import walk, strip, loc_str, strip_tmpl
 from . import pathrules as pr
 from .cfg import CFG
+from . import buildmodel as bm
 from . import ranges
 
 WK = 'embedded_pairing::wkdibe::'
@@ -273,6 +274,10 @@ def rule_total_precompute(ctx, cfg, prog):
         iv = ranges.for_iv(lp, {})
         init = lp['init']
         start = strip(init['vars'][0]['init']).get('cv') if init and init.get('k') == 'decl' else None
+        ivt = (init['vars'][0].get('t') or {}) if init and init.get('k') == 'decl' else {}
+        if start is None or ivt.get('k') != 'int' or lp.get('k') != 'for':
+            # another way of walking the list (pointer walk, while loop): this rule is written for the index loop and has no verdict
+            raise bm.AnalysisBroken('R-TOTAL: precompute does not walk its attribute list with an integer index from a constant: restructured, no verdict')
         c = strip(lp['c'])
         bound = pr.norm_obj(pr.canon(c['rhs'])) if c.get('k') == 'bin' else ''
         inc = strip(lp['inc'])
